@@ -65,18 +65,32 @@ let f64 = mk_ops (fun x -> x)
 (* conditioning probe (stochastic arithmetic): binary32 whose every rounded result is moved by
    one ulp up or down, pseudo-randomly but reproducibly; the spread of a result over a few noise
    seeds estimates how much binary32 rounding (libm differences, fused multiply-add) can move it *)
-let noise_state = ref 0
 let f32_noisy (seed : int) : float ops =
-  noise_state := seed * 7919 + 1;
+  let noise_state = ref (seed * 7919 + 1) in
   mk_ops (fun x ->
     let y = r32 x in
     noise_state := (!noise_state * 1103515245 + 12345) land 0x3fffffff;
     if Float.is_finite y && y <> 0.0 && y <> x then        (* only results that were actually rounded *)
-      (match (!noise_state lsr 13) land 3 with
-       | 0 -> Float.succ y |> r32 |> fun z -> if z = y then Int32.float_of_bits (Int32.add (Int32.bits_of_float y) 1l) else z
-       | 1 -> Int32.float_of_bits (Int32.sub (Int32.bits_of_float y) 1l)
-       | _ -> y)
+      (if (!noise_state lsr 13) land 1 = 0
+       then Int32.float_of_bits (Int32.add (Int32.bits_of_float y) 1l)
+       else Int32.float_of_bits (Int32.sub (Int32.bits_of_float y) 1l))
     else y)
+
+(* sign-of-zero probe: binary32 in which every zero result is +0 (Eigen's AVX-512 negation is 0 - a,
+   so -(+0) is +0 there and -0 elsewhere; atan2(+-0, negative) is +-pi) *)
+let f32_poszero : float ops =
+  let b = mk_ops r32 in
+  let z v = if v = 0.0 then 0.0 else v in
+  { b with o_un = (fun op a -> z (b.o_un op a)); o_bin = (fun op x y -> z (b.o_bin op x y)) }
+
+(* shadow arenas: the same build commands replayed with other arithmetics (plain doubles, noisy
+   binary32), so that constants FOLDED AT BUILD TIME (Tree::unary / Tree::binary on constants) are
+   covered by the stability probe too: tan(exp(64)) feeding acos, mod of folded constants, ... *)
+type shadow = { so : float ops; sa : float arena ref; shh : int array ref;
+                sv : (int, int) Hashtbl.t; mutable sok : bool }
+let new_shadows () =
+  List.map (fun o -> { so = o; sa = ref (init_arena o); shh = ref [||]; sv = Hashtbl.create 8; sok = true })
+    [mk_ops (fun x -> x); f32_noisy 101; f32_noisy 102; f32_noisy 103; f32_poszero]
 
 (* ---- canonical DAG dump (identical grammar in harness/expr.cpp) ---- *)
 let dump_dag (a : float arena) (root : int) (var_index : int -> int) : string =
@@ -232,6 +246,37 @@ let () =
   let var_index i = try Hashtbl.find varidx i with Not_found -> -1 in
   let out s = Printf.printf "%s %d %s\n" !case_id !cmd s in
   let set (res : float arena * nat) = a := fst res; add_handle (int_of_nat (snd res)) in
+  let shadows = ref (new_shadows ()) in
+  (* replay one handle-producing command in a shadow; anything unsupported invalidates the shadow *)
+  let shadow_step (sh : shadow) (c : string) (rest : string list) =
+    let push i = sh.shh := Array.append !(sh.shh) [|i|] in
+    let hh s = let i = int_of_string s in if i >= 0 && i < Array.length !(sh.shh) then !(sh.shh).(i) else -1 in
+    let setr (res : float arena * nat) = sh.sa := fst res; push (int_of_nat (snd res)) in
+    let n x = nat_of_int (hh x) in
+    (try
+      (match c, rest with
+       | "const", [hx] -> setr (mk_const !(sh.sa) (of_hex32 hx))
+       | "x", [] -> setr (mk_nullary !(sh.sa) VAR_X)
+       | "y", [] -> setr (mk_nullary !(sh.sa) VAR_Y)
+       | "z", [] -> setr (mk_nullary !(sh.sa) VAR_Z)
+       | "var", [] ->
+           let res = mk_var !(sh.sa) in
+           Hashtbl.replace sh.sv (int_of_nat (snd res)) (Hashtbl.length sh.sv); setr res
+       | "un", [op; l] when hh l >= 0 -> setr (mk_unary sh.so !(sh.sa) (op_of_name op) (n l))
+       | "bin", [op; l; r] when hh l >= 0 && hh r >= 0 -> setr (mk_bin sh.so !(sh.sa) (op_of_name op) (n l) (n r))
+       | "remap", [t; x; y; z] when List.for_all (fun q -> hh q >= 0) [t; x; y; z] ->
+           setr (mk_remap !(sh.sa) (n t) (n x) (n y) (n z))
+       | "apply", [t; v; e] when List.for_all (fun q -> hh q >= 0) [t; v; e] ->
+           (match mk_apply !(sh.sa) (n t) (n v) (n e) with Some res -> setr res | None -> push (-1))
+       | "flatten", [t] when hh t >= 0 -> setr (flatten sh.so !(sh.sa) (n t))
+       | "opt", [t] when hh t >= 0 -> setr (optimized sh.so !(sh.sa) (n t))
+       | "copy", [t] -> push (hh t)
+       | ("std" | "cstd"), k :: hs when List.for_all (fun q -> hh q >= 0) hs ->
+           (match std_dispatch sh.so (nat_of_int (int_of_string k)) (List.map (fun q -> SH (n q)) hs) with
+            | Some e -> setr (build sh.so e !(sh.sa))
+            | None -> push (-1))
+       | _ -> push (-1); sh.sok <- false)
+    with _ -> push (-1); sh.sok <- false) in
   (try
     while true do
       let line = input_line stdin in
@@ -241,7 +286,8 @@ let () =
        | "case" :: id :: _ ->
            case_id := id; cmd := 0; a := init_arena f32; handles := [||]; Hashtbl.reset optflag; noflags := false;
            Hashtbl.reset oracle_tbl;
-           Hashtbl.reset varidx; nvars := 0
+           Hashtbl.reset varidx; nvars := 0;
+           shadows := new_shadows ()
        | ["end"] ->
            incr cmd;
            if !noflags then begin
@@ -251,6 +297,7 @@ let () =
            end
        | c :: rest ->
          incr cmd;
+         let nh_before = Array.length !handles in
          (try
            (match c, rest with
             | "capi", [] -> noflags := true
@@ -317,7 +364,17 @@ let () =
                 if (not !noflags) && Hashtbl.mem optflag (int_of_string t) then add_handle (h t)
                 else set (optimized f32 !a (nat_of_int (h t)));
                 Hashtbl.replace optflag (Array.length !handles - 1) true
-            | "dump", [t] -> out ("D " ^ dump_dag !a (h t) var_index)
+            | "dump", [t] ->
+                out ("D " ^ dump_dag !a (h t) var_index);
+                (* the same handle in the shadow builds: a structure (folded constants) that depends on
+                   rounding noise / the sign of zero is not compared with the implementation's *)
+                if Hashtbl.length oracle_tbl = 0 && not !noflags then
+                  List.iter (fun sh ->
+                    let hi = int_of_string t in
+                    if sh.sok && hi < Array.length !(sh.shh) && !(sh.shh).(hi) >= 0 then
+                      (try out ("DS " ^ dump_dag !(sh.sa) !(sh.shh).(hi)
+                                  (fun i -> match Hashtbl.find_opt sh.sv i with Some k -> k | None -> -1))
+                       with _ -> ())) !shadows
             | "eq", [s; t] ->
                 let (_, b) = tree_eq f32 !a (nat_of_int (h s)) (nat_of_int (h t)) in
                 out (if b then "EQ 1" else "EQ 0")
@@ -333,6 +390,10 @@ let () =
                 let v32u = eval_pipeline f32 false !a (h t) varval x y z in
                 (* reference denotation in doubles on the un-optimised flattened tree,
                    with the largest intermediate magnitude and a sensitivity estimate *)
+                (* doubles that remember whether any operation produced a non-finite result: constants folded
+                   while flattening (log(0), pow(-inf, 3)) never show up as slots *)
+                let nonfinite = ref false in
+                let f64 = mk_ops (fun v -> if not (Float.is_finite v) then nonfinite := true; v) in
                 let (a1, r) = if Hashtbl.length oracle_tbl = 0 then flatten f64 !a (nat_of_int (h t))
                               else optimized f64 !a (nat_of_int (h t)) in
                 let d = mk_deck a1 r in
@@ -342,6 +403,7 @@ let () =
                   (List.nth sl (int_of_nat d.d_root),
                    List.fold_left (fun m v -> if Float.is_nan v then infinity else Float.max m (Float.abs v)) 0.0 sl) in
                 let (ref64, mx) = run varval x y z in
+                let mx = if !nonfinite then infinity else mx in
                 let pert k = fun u -> u *. (1.0 +. k *. 1e-6) +. k *. 1e-7 in
                 let sens = List.fold_left (fun s k ->
                     let (r', _) = run (fun i -> pert k (varval i)) (pert k x) (pert (-. k) y) (pert k z) in
@@ -354,12 +416,32 @@ let () =
                     if d > 20.0 *. Float.abs k *. Float.max s (1e-6 *. (1.0 +. Float.abs ref64)) || Float.is_nan d
                     then Float.max s 1e30 else s) sens [30.0; -30.0; 300.0; -300.0] in
                 (* rounding-noise probe: spread of the un-optimised binary32 value under one-ulp noise *)
+                let dist v = if Float.is_nan v && Float.is_nan v32u then 0.0
+                             else if Float.is_nan v || Float.is_nan v32u then infinity else Float.abs (v -. v32u) in
                 let noise = List.fold_left (fun acc seed ->
                     let o = f32_noisy seed in
-                    let v = eval_pipeline o false !a (h t) varval x y z in
-                    let d = if Float.is_nan v && Float.is_nan v32u then 0.0
-                            else if Float.is_nan v || Float.is_nan v32u then infinity else Float.abs (v -. v32u) in
-                    Float.max acc d) 0.0 [1; 2; 3; 4] in
+                    Float.max acc (dist (eval_pipeline o false !a (h t) varval x y z))) 0.0 [1; 2; 3; 4; 5; 6; 7; 8] in
+                let noise = Float.max noise (dist (eval_pipeline f32_poszero false !a (h t) varval x y z)) in
+                (* a NaN intermediate in a variant (mod(0,0) once atan2(-0,-0) = -pi has become atan2(0,0) = 0):
+                   min / max pass a NaN on or not depending on the operand order, so the point is outside the domain *)
+                let nan_in o =
+                  if Hashtbl.length oracle_tbl <> 0 then false else
+                  (try
+                    let (a1, r) = flatten o !a (nat_of_int (h t)) in
+                    let d = mk_deck a1 r in
+                    List.exists Float.is_nan (eval_tape o no_oracle d d.d_tape
+                      (set_point d (init_slots o d (fun v -> varval (int_of_nat v))) x y z))
+                  with _ -> false) in
+                let noise = if nan_in f32_poszero || nan_in (f32_noisy 1) || nan_in (f32_noisy 2) then infinity else noise in
+                (* ... and under the shadow builds (doubles, noisy binary32), which also re-fold the constants *)
+                let noise = if Hashtbl.length oracle_tbl <> 0 then noise else
+                  List.fold_left (fun acc sh ->
+                    let hi = int_of_string t in
+                    if not sh.sok || hi >= Array.length !(sh.shh) || !(sh.shh).(hi) < 0 then acc else
+                    let vv i = (match Hashtbl.find_opt sh.sv i with
+                                | Some k when k < Array.length vals -> vals.(k) | _ -> 0.0) in
+                    (try Float.max acc (dist (eval_pipeline sh.so false !(sh.sa) !(sh.shh).(hi) vv x y z))
+                     with _ -> acc)) noise !shadows in
                 out (Printf.sprintf "V %s %s %s %s %s %s" (hex32 v32) (hex32 v32u) (hex64 ref64) (hex64 mx) (hex64 sens) (hex64 noise))
             | "archive", nshapes :: rest ->
                 (* archive N, then per shape: h name doc nv, then nv pairs (varhandle name); variables in serialisation order *)
@@ -372,6 +454,14 @@ let () =
                     { sh_tree = nat_of_int t; sh_name = name; sh_doc = doc; sh_vars = vs }) in
                 let (_, bytes) = serialize f32 enc_f32 !a shapes in
                 out ("B " ^ tohex bytes);
+                (* the shape trees in the shadow builds (fragile constant folds; see "dump") *)
+                List.iteri (fun k shp ->
+                  List.iter (fun sh ->
+                    (* find the main handle index of this shape's tree *)
+                    let hi = ref (-1) in
+                    Array.iteri (fun j v -> if v = int_of_nat shp.sh_tree && !hi < 0 then hi := j) !handles;
+                    if sh.sok && !hi >= 0 && !hi < Array.length !(sh.shh) && !(sh.shh).(!hi) >= 0 then
+                      (try out (Printf.sprintf "DS %d %s" k (dump_dag !(sh.sa) !(sh.shh).(!hi) (fun _ -> 0))) with _ -> ())) !shadows) shapes;
                 let (a2, loaded) = deserialize f32 dec_f32 (init_arena f32) bytes in
                 out ("N " ^ string_of_int (List.length loaded));
                 List.iter (fun sh ->
@@ -410,6 +500,9 @@ let () =
                 let smooth = Float.abs (dx -. dx2) +. Float.abs (dy -. dy2) +. Float.abs (dz -. dz2) in
                 let vcd = List.map (fun (k, _) ->
                     cd (fun e -> f (fun i -> if var_index i = k then varval i +. e else varval i) x y z)) vp in
+                (* the central difference itself loses everything below eps64 * |largest intermediate| / h *)
+                let maxabs = List.fold_left (fun m v -> Float.max m (Float.abs v)) 0.0 all_slots in
+                let smooth = smooth +. 4.4e-16 *. maxabs /. hh in
                 let smooth = if defined then smooth else infinity in
                 (* conditioning: how far the model's own gradient moves under one-ulp noise *)
                 let spread = List.fold_left (fun acc seed ->
@@ -419,7 +512,15 @@ let () =
                     let pv = List.map (fun (slot, _) -> var_partial f32 no_oracle d (fun i -> varval (int_of_nat i)) x y z slot) d.d_vars in
                     let df a b = if Float.is_nan a || Float.is_nan b then (if Float.is_nan a && Float.is_nan b then 0.0 else infinity)
                                  else Float.abs (a -. b) in
-                    List.fold_left Float.max acc ([df nx gx; df ny gy; df nz gz] @ List.map2 df nv pv)) 0.0 [1; 2; 3; 4] in
+                    List.fold_left Float.max acc ([df nx gx; df ny gy; df nz gz] @ List.map2 df nv pv)) 0.0 [1; 2; 3; 4; 5; 6; 7; 8; 9; 10; 11; 12] in
+                (* an exact min / max tie in the optimised deck: which operand's derivative is returned then
+                   depends on the operand order, which the optimiser sorts by pointer *)
+                let sl32 = Array.of_list (eval_tape f32 no_oracle d d.d_tape
+                    (set_point d (init_slots f32 d (fun i -> varval (int_of_nat i))) x y z)) in
+                let tie = List.exists (fun c -> (c.c_op = OP_MIN || c.c_op = OP_MAX) &&
+                    (let ia = int_of_nat c.c_a and ib = int_of_nat c.c_b in
+                     ia <> ib && ia < Array.length sl32 && ib < Array.length sl32 && sl32.(ia) = sl32.(ib))) d.d_tape in
+                let spread = if tie then infinity else spread in
                 out (Printf.sprintf "DV %s %s %s %s cd %s %s %s %s vars %s vcd %s cond %s" (hex32 v) (hex32 gx) (hex32 gy) (hex32 gz)
                        (hex64 dx) (hex64 dy) (hex64 dz) (hex64 smooth)
                        (String.concat "," (List.map (fun (k, g) -> Printf.sprintf "%d:%s" k (hex32 g)) vp))
@@ -470,6 +571,10 @@ let () =
                 let t = { t_clauses = cls; t_root = nat_of_int (int_of_string root); t_terminal = (term = "1") } in
                 out ("P " ^ dump_tape (tape_push (nat_of_int n) (keep_point f32 v) t))
             | _ -> out ("ERR unknown command " ^ c))
-         with e -> out ("ERR " ^ Printexc.to_string e)))
+         with e -> out ("ERR " ^ Printexc.to_string e));
+         (* keep the shadows' handle tables in step with the main one *)
+         let grown = Array.length !handles - nh_before in
+         if grown = 1 then List.iter (fun sh -> shadow_step sh c rest) !shadows
+         else if grown <> 0 then List.iter (fun sh -> sh.sok <- false) !shadows)
     done
   with End_of_file -> ())
